@@ -276,15 +276,20 @@ impl Ctl {
 			self.cv.notify_all();
 		}
 	}
-	/// remove all parking sites and release the thread if parked
+	/// remove all parking sites and release the thread if it is (or is about to be) parked
 	pub fn release(&self) {
 		let mut g = self.m.lock().unwrap();
 		g.sites.clear();
 		if let Status::Parked(_) = g.status {
 			g.status = Status::Running;
-			g.grant = true;
-			self.cv.notify_all();
 		}
+		// granted unconditionally: a thread whose bookkeeping was overwritten must never stay parked
+		g.grant = true;
+		self.cv.notify_all();
+	}
+	/// true if the thread is waiting at a yield point (whatever `status` says)
+	pub fn clear_grant(&self) {
+		self.m.lock().unwrap().grant = false;
 	}
 }
 
@@ -366,6 +371,11 @@ impl<S: 'static> Worker<S> {
 	}
 	/// start a job; the thread parks at yield points whose name starts with one of `sites`
 	pub fn start(&self, sites: &[&str], job: impl FnOnce(&mut S) -> Value + Send + 'static) {
+		// a previous job that is still parked is first run to its end (never queue behind a parked job)
+		if let Status::Parked(_) = self.ctl.status() {
+			let _ = self.finish();
+		}
+		self.ctl.clear_grant();
 		self.ctl.set_sites(sites);
 		self.ctl.set_running();
 		self.tx.as_ref().unwrap().send(Box::new(job)).unwrap();
@@ -419,6 +429,7 @@ impl Tracer {
 		self.session += 1;
 		self.idx = 0;
 		cfg["a"] = json!("reset");
+		let _ = self.out.flush(); // a killed run keeps the sessions it completed
 		self.ev(cfg);
 	}
 	pub fn ev(&mut self, mut e: Value) {
@@ -428,6 +439,9 @@ impl Tracer {
 		e["i"] = json!(self.idx);
 		serde_json::to_writer(&mut self.out, &e).unwrap();
 		self.out.write_all(b"\n").unwrap();
+		if std::env::var("KV_DEBUG").is_ok() {
+			let _ = self.out.flush();
+		}
 	}
 	pub fn flush(&mut self) {
 		self.out.flush().unwrap();
